@@ -1,3 +1,4 @@
+import Tv.Thm.C05Reg
 import Tv.Thm.C01
 import Tv.Lemmas.Local
 import Tv.Thm.C03
